@@ -1,5 +1,5 @@
 from .. import common, mir
-from ..rules import c09, c04
+from ..rules import c09, c04, c11, c12, c11_r3
 
 
 def run(tier, replay=None):
@@ -12,4 +12,12 @@ def run(tier, replay=None):
         crate = mir.load(cfg)
         c09.run(rep, crate, cfg)
         c04.run_enc(rep, crate, cfg)
+        # every kernel touches each byte position once and byte j of the result depends on bytes j only (C11-R2/R3), within
+        # the buffers (C12-R1): a kernel that mixes neighbouring bytes or columns breaks column independence
+        sub = common.Report("C12", tier)
+        logs = c12.run(sub, crate, cfg)
+        for v in sub.viol:
+            rep.bad(v["rule"], v["fn"], v["key"].split("|", 2)[2], v["where"], v["msg"], v.get("detail"), cfg)
+        c11.run_cover(rep, crate, cfg, logs)
+        c11_r3.run(rep, crate, cfg)
     return rep.finish("other", "data independence of the solver and position-wise application", "./check C09 %s" % tier)
